@@ -66,6 +66,7 @@ def check_trace(r, dst_root, want_fsync):
         p1, p2 = e["p1"], e["p2"]
         if s in ("openat", "open") and p1.startswith(dst_root):
             flags = e["a"][2] if s == "openat" else e["a"][1]
+            p1 = os.path.normpath(p1)        # as spelled by the caller (./name); descriptor-based calls report the resolved path
             if (flags & os.O_CREAT) and ret >= 0:
                 created[p1] = e["x"]
                 last_data[p1] = max(last_data.get(p1, 0), e["x"])
@@ -105,7 +106,7 @@ def run(ctx, out):
     out.rule = ("trees with single-block, multi-block (2..16 blocks of 16 KiB), empty, all-hole, leading- and trailing-hole files; "
                 "both drivers, workers 1/2/4/16, random thread holds (several seeds), copy_file_range available or failing with "
                 "ENOSYS/EXDEV (user-space fallback), extended attributes refused by the destination (ENOSPC/EPERM/ENOTSUP/E2BIG/EACCES: "
-                "best effort, only warned about), ONE flush of the run refused (EINVAL/ENOSYS/EOPNOTSUPP/EIO: the others must still happen), --fsync on (oracle: fsync entered after the last data/size call of the "
+                "best effort, only warned about), ONE flush of the run refused (EINVAL/ENOSYS/EOPNOTSUPP/EIO: the others must still happen), single-file invocations with the destination spelled as a bare name / ./name / sub/name / absolute / a directory / -t DIR; --fsync on (oracle: fsync entered after the last data/size call of the "
                 "file and returned before exit; also when the run goes onto the result of the previous one) and off (oracle: no fsync); non-trivial = --fsync run with >= 2 workers; "
                 "distinct = (case, driver, workers, seed, fsync, cfr)")
     ncases = 3 if quick else 20
@@ -211,6 +212,36 @@ def run(ctx, out):
             hinputs.append(enc)
             hmeta.append((rep, paths, driver, w))
         shutil.rmtree(d, ignore_errors=True)
+    # ---- single-file invocations, every way of SPELLING the destination: a bare name in the working directory, ./name,
+    #      below a sub-directory, absolute, an existing directory with and without a trailing slash, -t DIR
+    kk = 0
+    for driver in ("parfile", "parblock"):
+        for spelling in ("bare", "dot", "sub", "abs", "dir", "dirslash", "targetdir", "bare-T"):
+            for size in ((70000,) if quick else (0, 1, 70000, 300000)):
+                kk += 1
+                d = os.path.join(d0, "one%d" % kk)
+                os.makedirs(os.path.join(d, "sub"))
+                os.makedirs(os.path.join(d, "outdir"))
+                fsutil.make_file(os.path.join(d, "one.bin"), size, [(0, size)], tag=kk, sync=False)
+                tail = {"bare": ["one.bin", "copy.bin"], "dot": ["one.bin", "./copy.bin"], "sub": ["one.bin", "sub/copy.bin"],
+                        "abs": ["one.bin", os.path.join(d, "copy.bin")], "dir": ["one.bin", "outdir"], "dirslash": ["one.bin", "outdir/"],
+                        "targetdir": ["--target-directory", "outdir", "one.bin"], "bare-T": ["-T", "one.bin", "copy.bin"]}[spelling]
+                w = rng.choice([1, 2, 4])
+                argv = [ctx.bins["xcp"], "--driver", driver, "-w", str(w), "--block-size", "16384", "--fsync"] + tail
+                r = xcp.run_supervised(sup, argv, d, d, tag="o", timeout_ms=60000, seed=rng.randrange(1 << 30), hold_permille=150, hold_maxms=4)
+                out.case(("single-file", driver, spelling, size), nontrivial=True)
+                out.count("single_file_destination_" + spelling)
+                rep = dict(kind="single file, destination spelled %r" % tail[-1], argv=argv[1:], exit=r.exit, stderr=r.stderr[-200:])
+                if r.exit != 0:
+                    out.violation("run failed (exit %d): %s" % (r.exit, r.stderr[-200:]), rep)
+                else:
+                    probs, created = check_trace(r, d + "/", True)
+                    created = {p_: v for p_, v in created.items() if "/.sup/" not in p_}
+                    for pr in [x for x in probs if "/.sup/" not in x][:2]:
+                        out.violation(pr + " (driver %s, %d workers)" % (driver, w), rep)
+                    if not created:
+                        out.violation("destination file never created", rep)
+                shutil.rmtree(d, ignore_errors=True)
     if ctx.model_ok and minputs:
         res = core.run_model("run_copy_actions", minputs, shard=40, tag="c18a")
         for (rep, codes), mo in zip(mmeta, res):
